@@ -25,6 +25,14 @@ Ln(x) == Fn("ln", x)
 ExpNeg(x) == Fn("expneg", x)
 Ln1mExpNeg(x) == Fn("ln1mexpneg", x)
 Sq(x) == Fn("sq", x)
+Sqrt(x) == Fn("sqrt", x)
+Abs(x) == Fn("abs", x)
+Div(x, y) == Node("div", 1, 1, 0, <<>>, <<>>, <<x, y>>)
+Prod(kids) == Node("prod", 1, 1, 0, <<>>, <<>>, kids)
+\* quantile of Student's t with m degrees of freedom at probability a/b
+TPpf(a, b, m) == Node("t_ppf", a, b, m, <<>>, <<>>, <<>>)
+\* 2 * (upper tail of the standard normal at |x|)
+TwoSidedNormal(x) == Fn("two_sided_normal", x)
 LnFact(m) == Node("lnfact", 1, 1, m, <<>>, <<>>, <<>>)
 Sum(kids) == Node("sum", 1, 1, 0, <<>>, <<>>, kids)
 NegInf == Node("neginf", 1, 1, 0, <<>>, <<>>, <<>>)
